@@ -37,13 +37,17 @@ using std::string;
 ///    The name of the attribute.
 /// @param[in]  attr_value
 ///    The value of the attribute.
+/// @return
+///    An identification of the added attribute, can be used to remove exactly
+///    this attribute again with removeAttributeById().
 /// @since  1.15.0, 19.06.2016
-void LogAttributesContainer::addAttribute( const string& attr_name,
+size_t LogAttributesContainer::addAttribute( const string& attr_name,
    const string& attr_value)
 {
 
-   mAttributes.push_back( attr_pair_t( attr_name, attr_value));
+   mAttributes.push_back( attr_pair_t( attr_name, attr_value, mNextAttrId));
 
+   return mNextAttrId++;
 } // LogAttributesContainer::addAttribute
 
 
@@ -112,6 +116,27 @@ void LogAttributesContainer::removeAttribute( const string& attr_name)
    } // end for
 
 } // LogAttributesContainer::removeAttribute
+
+
+
+/// Removes exactly the attribute for which addAttribute() returned the given
+/// identification. Does nothing if this attribute does not exist anymore.
+///
+/// @param[in]  attr_id  The identification of the attribute to erase.
+/// @since  01.10.2026
+void LogAttributesContainer::removeAttributeById( size_t attr_id)
+{
+
+   for (auto it = mAttributes.begin(); it != mAttributes.end(); ++it)
+   {
+      if (std::get< 2>( *it) == attr_id)
+      {
+         mAttributes.erase( it);
+         break;   // for
+      } // end if
+   } // end for
+
+} // LogAttributesContainer::removeAttributeById
 
 
 
